@@ -17,8 +17,10 @@
 //         the Q factor of a Householder QR has this property for EVERY input block, rank deficient or not (a zero or non-unit column is not a Q factor)
 //   recall n nev max init corr rule maxit tol  pinfo pniter  mb B(n*mb) mw W(n*mw)  kp th(kp) X(n*kp) R(n*kp)  nfl flags(nfl)  A(n*n)  g G(n*g)  ok2 k2 th2(k2) Y2(k2*k2)
 //         a call with maxit in {0, 1} on a USED solver object: the model's computeWithGuess starts from the state the previous call on the same
-//         object left behind (basis, cached products, Ritz values / vectors, flags, info, niter), g = 0 means compute() (default space);
-//         SelfAdjointEigenSolver replayed from the recording (k2 = 0 when maxit = 0: the loop body never runs)
+//         object left behind (basis, cached products, Ritz values / vectors, flags, info, niter; also after a call that threw), g = 0 means
+//         compute() (default space); SelfAdjointEigenSolver replayed from the recording (k2 = 0 when maxit = 0: the loop body never runs).
+//         Since /repo 6587027 compute_with_guess resets m_ritz_pairs and m_info as well, so the answer must not depend on that state:
+//         maxit = 0 gives NotComputed / 0 / no eigenvalue / no flag whatever the object held (was: the previous call's results, F21)
 //                                                        -> info niter ret nfl flags.. nev evals(bits, exact).. eigok | norms | W'(n*m')
 //
 // Shapes of use (audited against five blind spots shared by harnesses of this framework; counters hist_*, view_*, acc_*, edge_*):
@@ -80,6 +82,7 @@ struct Case {
     bool sparse = false; int gkind = 0; Mat A; Mat G; long mx = -1, in = -1, co = -1;   // sizes after the constructor
     bool structured = false; std::vector<int> hubs; int defn = 0;   // structured share: hub coordinates, definiteness (0 positive, 1 negative, 2 indefinite)
     bool edge = false; int wide_guess = 0;   // edge share (gen_edge_case); wide_guess > 0: corpus history that ends with a user space of that many (> max) columns
+    int wide_mid = 0;                        // > 0: corpus history whose LAST BUT ONE call has a user space of that many (> max) columns (it throws: F20); the last call (maxit in {0, 1}) then runs on an object left by a throwing call
 };
 
 static std::string bits(const Mat& M) { std::string s; for (Index j = 0; j < M.cols(); j++) for (Index i = 0; i < M.rows(); i++) { s += ' '; s += str(dbits(M(i, j))); } return s; }
@@ -329,9 +332,13 @@ static int oracle(const Case& c, const Snap& s, Out* out, uint64_t seed, const s
     auto fail = [&](const std::string& sig, const std::string& what, const std::string& rj) { nf++; if (out) out->fail(sig, what, rj); };
     // mechanism tags used by known-finding matching (computed, not assumed)
     LD gdev = 0; if (c.gkind != 0) { for (Index i = 0; i < c.G.cols(); i++) for (Index j = 0; j < c.G.cols(); j++) { LD d = 0; for (int k = 0; k < n; k++) d += (LD) c.G(k, i) * (LD) c.G(k, j); gdev = std::max(gdev, std::fabs(d - (i == j ? 1.0L : 0.0L))); } }
+    // F20c mechanism: a user space of g < initial columns grows g, g + corr, g + 2 corr, ...; the first size beyond max triggers restart(), which takes
+    // leftCols(initial) of the Ritz pairs computed at the LAST size s <= max: out of bounds iff s < initial (g + corr > max is the case s = g)
+    bool restart_below_initial = false;
+    if (c.gkind != 0 && c.co >= 1 && (long) c.G.cols() < c.in && (long) c.G.cols() <= c.mx) { long sz = (long) c.G.cols(); while (sz + c.co <= c.mx) sz += c.co; restart_below_initial = sz < c.in; }
     std::ostringstream ex; ex << ",\"guess_orthonormal\":" << (gdev <= 1e-8L ? 1 : 0) << ",\"zero_denominator_seen\":" << (zero_denom ? 1 : 0) << ",\"degenerate_correction_seen\":" << (in_span ? 1 : 0) << ",\"extension_block_orthonormal\":" << (block_ok ? 1 : 0) << ",\"final_space_lt_nev\":" << ((long) s.th.size() < nev ? 1 : 0) << ",\"flags_lt_nev\":" << ((long) s.flags.size() < nev ? 1 : 0)
                               << ",\"initial_space_gt_max\":" << ((c.gkind == 0 ? c.in : (long) c.G.cols()) > c.mx ? 1 : 0)
-                              << ",\"guess_lt_initial_restart\":" << ((c.gkind != 0 && (long) c.G.cols() < c.in && (long) c.G.cols() + c.co > c.mx) ? 1 : 0) << ",\"info\":" << s.info << ",\"ret\":" << s.ret << ",\"raised\":\"" << jesc(s.threw ? s.what : std::string("")) << "\"" << extra;
+                              << ",\"guess_lt_initial_restart\":" << (restart_below_initial ? 1 : 0) << ",\"info\":" << s.info << ",\"ret\":" << s.ret << ",\"raised\":\"" << jesc(s.threw ? s.what : std::string("")) << "\"" << extra;
     std::string rj = replay_json(c, seed, tier, ex.str());
     std::string tag = std::string(CLS[c.cls]) + "/" + GK[c.gkind] + "/" + RN[c.rule] + " n=" + str(n) + " nev=" + str(nev);
     if (out) { out->count("oracle_runs"); out->count(std::string("info_") + str(s.info)); }
@@ -488,7 +495,7 @@ static void history(Op& op, const Case& c, const Snap& fin, Out& out, uint64_t s
         { double u = r.unit(); k.maxit = u < 0.12 ? 0 : u < 0.27 ? 1 : u < 0.42 ? r.range(2, 3) : 100; }
         k.tol = tols[r.below(5)];
         if (j == nmore - 1) k.maxit = (c.idx + (long) r.below(2)) % 2 == 0 ? 0 : 1;
-        if (c.wide_guess > 0 && j == nmore - 1) { k.maxit = 100; k.guess = true; k.gkind = 1; k.view = 0; k.G = Mat::Identity(n, c.wide_guess); calls.push_back(k); continue; }
+        if ((c.wide_guess > 0 && j == nmore - 1) || (c.wide_mid > 0 && j == nmore - 2)) { k.maxit = 100; k.guess = true; k.gkind = 1; k.view = 0; k.G = Mat::Identity(n, c.wide_guess > 0 ? c.wide_guess : c.wide_mid); calls.push_back(k); continue; }
         double u = r.unit();
         if (u < 0.5) k.guess = false;
         else {
@@ -537,7 +544,7 @@ static void history(Op& op, const Case& c, const Snap& fin, Out& out, uint64_t s
         std::string af = accessor_probe(*sp, r, h); out.count("acc_probes");
         if (!af.empty()) out.fail("accessor-unstable", af + " after " + call_text(k) + " (history `" + hist + "`)", replay_json(cj, seed, tier, ex.str()));
         // ---- correspondence: this call replayed in the model from the state the previous call left in the object
-        if (corr && j > 0 && k.maxit <= 1 && have_prev && !prevh.threw && !h.threw && n <= 16 && (k.guess ? (long) k.G.cols() : in) <= mx && prevh.th.allFinite() && h.th.allFinite()
+        if (corr && j > 0 && k.maxit <= 1 && have_prev && !h.threw && n <= 16 && (k.guess ? (long) k.G.cols() : in) <= mx && prevh.th.allFinite() && h.th.allFinite()
             && all_finite(prevh.B) && all_finite(prevh.W) && all_finite(prevh.X) && all_finite(prevh.R) && prevh.X.cols() == prevh.th.size() && prevh.R.cols() == prevh.th.size() && all_finite(h.W) && all_finite(h.Y) && all_finite(h.R)) {
             std::ostringstream rq, rs;
             rq << "recall " << n << " " << c.nev << " " << mx << " " << in << " " << co << " " << k.rule << " " << k.maxit << " " << dbits(k.tol) << " " << prevh.info << " " << prevh.niter
@@ -547,7 +554,7 @@ static void history(Op& op, const Case& c, const Snap& fin, Out& out, uint64_t s
             rs << h.info << " " << h.niter << " " << h.ret << " " << h.flags.size(); for (int fl : h.flags) rs << " " << fl;
             rs << " " << h.evals.size(); for (Index q = 0; q < h.evals.size(); q++) rs << " " << dbits(h.evals[q]);
             rs << " 1 |"; for (Index q = 0; q < h.R.cols(); q++) rs << " " << dbits(h.R.col(q).norm()); rs << " |" << bits(h.W);
-            out.corr(rq.str(), rs.str()); out.count(k.maxit == 0 ? "recall_maxit0" : "recall_maxit1");
+            out.corr(rq.str(), rs.str()); out.count(k.maxit == 0 ? "recall_maxit0" : "recall_maxit1"); out.count(std::string("recall_after_info_") + str(prevh.info)); if (prevh.threw) out.count("recall_after_throw");
         }
         prevh = h; have_prev = true;
     }
@@ -690,8 +697,10 @@ static std::vector<Case> corpus() {
       for (int i = 0; i < 12; i++) for (int j = 0; j < 12; j++) c.A(i, j) = (i == j) ? i + 1.0 : 0.01; c.two_arg = true; c.nvec_init = 4; c.nvec_max = 20; c.gkind = 2; c.G = Mat(12, 0); v.push_back(c); }
     { Case c; c.idx = -4; c.cls = 0; c.n = 12; c.nev = 2; c.rule = 7; c.tol = 1e-8; c.A = Mat::Zero(12, 12);    // restarts forced by a small maximum
       for (int i = 0; i < 12; i++) for (int j = 0; j < 12; j++) c.A(i, j) = (i == j) ? i + 1.0 : 0.3 / (1.0 + std::abs(i - j)); c.two_arg = false; c.nvec_init = 3; c.nvec_max = 6; c.G = Mat(12, 0); v.push_back(c); }
-    { Case c; c.idx = -5; c.cls = 0; c.n = 12; c.nev = 1; c.rule = 3; c.tol = 1e-8; c.A = Mat::Zero(12, 12);    // F21b: a user space wider than the maximum on a USED object restarts from the previous call's Ritz pairs
+    { Case c; c.idx = -5; c.cls = 0; c.n = 12; c.nev = 1; c.rule = 3; c.tol = 1e-8; c.A = Mat::Zero(12, 12);    // F21b / F21c (repaired by /repo 6587027): a user space wider than the maximum on a USED object used to restart from the previous call's Ritz pairs and keep the previous info(); now it fails exactly as on a fresh object (F20)
       for (int i = 0; i < 12; i++) for (int j = 0; j < 12; j++) c.A(i, j) = (i == j) ? i + 1.0 : 0.05 / (1.0 + std::abs(i - j)); c.two_arg = false; c.nvec_init = 2; c.nvec_max = 4; c.wide_guess = 6; c.G = Mat(12, 0); v.push_back(c); }
+    for (int q = 0; q < 2; q++) { Case c; c.idx = -6 - q; c.cls = 0; c.n = 12; c.nev = 1; c.rule = 3; c.tol = 1e-8; c.A = Mat::Zero(12, 12);    // F21c (repaired): Successful call; call that throws (F20); compute(.., maxit = 0 / 1, ..): answered as by a fresh object (recall request after a throw)
+      for (int i = 0; i < 12; i++) for (int j = 0; j < 12; j++) c.A(i, j) = (i == j) ? i + 1.0 : 0.05 / (1.0 + std::abs(i - j)); c.two_arg = false; c.nvec_init = 2; c.nvec_max = 4; c.wide_mid = 6; c.G = Mat(12, 0); v.push_back(c); }
     return v;
 }
 
@@ -700,7 +709,7 @@ int main(int argc, char** argv) {
     if (!a.replay.empty()) {
         std::ifstream f(a.replay); std::string t((std::istreambuf_iterator<char>(f)), {});
         auto num = [&](const char* key, long dflt) { auto p = t.find(std::string("\"") + key + "\":"); return p == std::string::npos ? dflt : std::atol(t.c_str() + p + std::strlen(key) + 3); };
-        long idx = num("idx", 0); uint64_t sd = (uint64_t) num("seed", (long) a.seed); bool th = t.find("\"tier\":\"thorough\"") != std::string::npos;
+        long idx = num("idx", 0); uint64_t sd = (uint64_t) num("seed", (long) a.seed); bool th = false; { auto p = t.find("\"tier\":"); if (p != std::string::npos) th = t.substr(p + 7, 14).find("thorough") != std::string::npos; }   // the framework re-serialises the replay with a space after the colon
         Case c; if (idx < 0) { auto v = corpus(); c = v[(size_t) (-idx - 1)]; } else if (idx >= EDGE_BASE) c = gen_edge_case(sd, idx - EDGE_BASE, th); else if (idx >= STRUCT_BASE) c = gen_struct_case(sd, idx - STRUCT_BASE, th); else c = gen_case(sd, idx, th);
         do_case(c, out, sd, th ? "thorough" : "quick", false); out.finish(); return out.nfail ? 1 : 0;
     }
